@@ -64,9 +64,9 @@ Print Assumptions C17_instrumentation_is_erasable.
    PIs; no adjacent text nodes; names that print and split back; xml / xmlns
    fixed; attributes with distinct expanded names that are not declarations),
    on which the serializer's bookkeeping defects do not come into play
-   ([ser_clean]) and whose written tags are outside the C16 finding classes
-   ([item_ok], the re-parse side of DESIGN 6.3 rows 8/9) - all of it one
-   decidable check [rt_hyps] - the tokens denoted by the serializer's items
+   ([ser_clean]) - all of it one decidable check [rt_hyps]; the former
+   condition on the written tags (C16 classes, DESIGN 6.3 rows 8/9) is gone
+   with the repair of those defects - the tokens denoted by the serializer's items
    ([item_rtoken]: start tag with the written declarations and attributes, end
    tag, text, comment, PI, doctype), run through the tokenizer's attribute
    stage and the tree builder model, rebuild the same document (doctype ids
@@ -88,7 +88,7 @@ Theorem C17_roundtrip_partial_explicit :
   let kids := pre ++ XElem name attrs ks :: post in
   forallb is_prolog pre = true -> forallb is_misc post = true ->
   node_wf (XElem name attrs ks) = true ->
-  ser_clean kids = true -> forallb item_ok (ser_doc kids) = true ->
+  ser_clean kids = true ->
   reparse kids = map strip_ids kids.
 Proof. exact roundtrip_tokens_outside_finding. Qed.
 Print Assumptions C17_roundtrip_partial_explicit.
